@@ -54,6 +54,7 @@ for _cls in ("LDAPClient", "LDAPServer"):
 # ------------------------------------------------------------------------------------------------ base send gate
 # server: the base gate then the outstanding-id validation, both before any byte is queued
 SRV_REJECTS = "(%s or (not isinstance(msg, UnbindRequest) and msg.message_id not in old(self._outstanding_requests)))" % GATE_REJECTS
+ID_OK = "(isinstance(msg, UnbindRequest) or msg.message_id in old(self._outstanding_requests))"
 contract("_session:LDAPServer._validate_outgoing_message",
          params={"msg": "sym:LDAPMessage"},
          requires=[], ensures=["isinstance(msg, UnbindRequest) or msg.message_id in self._outstanding_requests"],
@@ -68,7 +69,7 @@ contract("_session:LDAPServer/LDAPSession._send",
          ensures=["result == msg.message_id",
                   "self._outgoing_buffer == old(self._outgoing_buffer) + enc(msg, self._packing_options)",
                   "self.state == " + OPENED_IF_FRESH,
-                  "not " + SRV_REJECTS],
+                  "not " + GATE_REJECTS, ID_OK],
          raises={"LDAPError": SRV_REJECTS},
          on_raise=UNCHANGED_WIRE + ["self.state == " + OPENED_IF_FRESH,
                                     "implies(%s, self.state == old(self.state))" % GATE_REJECTS],
@@ -92,7 +93,7 @@ contract("_session:LDAPServer._send",
          ensures=["result == msg.message_id",
                   "self._outgoing_buffer == old(self._outgoing_buffer) + enc(msg, self._packing_options)",
                   "self.state == " + OPENED_IF_FRESH,
-                  "not " + SRV_REJECTS,
+                  "not " + GATE_REJECTS, ID_OK,
                   # a final response retires the request, an entry / reference keeps it, nothing else changes
                   "self._outstanding_requests == (set_del(old(self._outstanding_requests), msg.message_id) if %s else old(self._outstanding_requests))" % FINAL,
                   "self._search_requests == old(self._search_requests)"],
@@ -129,6 +130,14 @@ contract("_session:LDAPClient._send",
          modifies=SEND_MOD + ["self._outstanding_requests", "self._message_counter"])
 
 # ------------------------------------------------------------------------------------------------ server API (C08, C10, C12)
+def _srv_accept(kind_is_bind_traffic, id_expr="message_id"):
+    """Two separate clauses: the state gate (C08) and the outstanding-id requirement (C10)."""
+    gate = "old(self.state) != %s" % CLOSED
+    if not kind_is_bind_traffic:
+        gate = "(%s and old(self.state) != %s)" % (gate, BINDING)
+    return [gate, "%s in old(self._outstanding_requests)" % id_expr]
+
+
 def _srv_reject(kind_is_bind_traffic, id_expr="message_id"):
     gate = "old(self.state) == %s" % CLOSED
     if not kind_is_bind_traffic:
@@ -150,8 +159,7 @@ _SENT = "self._outgoing_buffer == old(self._outgoing_buffer) + enc(sentmsg, self
 contract("_session:LDAPServer.bind_response", **_W,
          params={"result_code": "int"},
          requires=[VALID_STATE],
-         ensures=["result == message_id", _SENT, "isinstance(sentmsg, BindResponse)", "sentmsg.message_id == message_id",
-                  "not " + _srv_reject(True),
+         ensures=["result == message_id", _SENT, "isinstance(sentmsg, BindResponse)", "sentmsg.message_id == message_id"] + _srv_accept(True) + [
                   "self._outstanding_requests == set_del(old(self._outstanding_requests), message_id)",
                   "self._search_requests == old(self._search_requests)",
                   # BINDING is left only by a bind response that is not 'SASL bind in progress'
@@ -177,8 +185,7 @@ contract("_session:LDAPServer.extended_response", **_W,
 for _m, _cls_ in (("search_result_entry", "SearchResultEntry"), ("search_result_reference", "SearchResultReference")):
     contract("_session:LDAPServer.%s" % _m, **_W,
              requires=[VALID_STATE],
-             ensures=["result == message_id", _SENT, "isinstance(sentmsg, %s)" % _cls_, "sentmsg.message_id == message_id",
-                      "not " + _srv_reject(False),
+             ensures=["result == message_id", _SENT, "isinstance(sentmsg, %s)" % _cls_, "sentmsg.message_id == message_id"] + _srv_accept(False) + [
                       "self._outstanding_requests == old(self._outstanding_requests)",
                       "self._search_requests == old(self._search_requests)",
                       "self.state == " + OPENED_IF_FRESH],
@@ -188,8 +195,7 @@ for _m, _cls_ in (("search_result_entry", "SearchResultEntry"), ("search_result_
 contract("_session:LDAPServer.search_result_done", **_W,
          params={"result_code": "int"},
          requires=[VALID_STATE],
-         ensures=["result == message_id", _SENT, "isinstance(sentmsg, SearchResultDone)", "sentmsg.message_id == message_id",
-                  "not " + _srv_reject(False),
+         ensures=["result == message_id", _SENT, "isinstance(sentmsg, SearchResultDone)", "sentmsg.message_id == message_id"] + _srv_accept(False) + [
                   "self._outstanding_requests == set_del(old(self._outstanding_requests), message_id)",
                   "self._search_requests == set_del(old(self._search_requests), message_id)",
                   "self.state == " + OPENED_IF_FRESH],
@@ -224,7 +230,8 @@ _NEW_ID = ["result == old(self._message_counter)", "result >= 1", "self._message
            "self._outstanding_requests == set_add(old(self._outstanding_requests), result)"]
 
 _BIND_REJ = "(old(self._outstanding_requests) != empty_set() or old(self.state) == %s)" % CLOSED
-_BIND_ENS = _NEW_ID + [_SENT_ID, "isinstance(sentmsg, BindRequest)", "not " + _BIND_REJ,
+_BIND_ENS = _NEW_ID + [_SENT_ID, "isinstance(sentmsg, BindRequest)", "old(self.state) != %s" % CLOSED,
+                       "old(self._outstanding_requests) == empty_set()",
                        "self._search_requests == old(self._search_requests)",
                        "self.state == %s" % BINDING] + CLIENT_INV
 contract("_session:LDAPClient.bind", **_W,
